@@ -103,10 +103,16 @@ namespace igris
             char *ptr = nullptr;
             char *_end = nullptr;
 
+            // never writes beyond _end: like binary_buffer_reader::load_data
+            // the copy is clamped to the remaining room; what does not fit
+            // is dropped and ptr stops at _end
             void dump_data(const char *dat, uint16_t size) override
             {
-                memcpy(ptr, dat, size);
-                ptr += size;
+                size_t room = (size_t)(_end - ptr);
+                size_t len = size < room ? size : room;
+                if (len)
+                    memcpy(ptr, dat, len);
+                ptr += len;
             }
 
             binary_buffer_writer(char *str, size_t size)
